@@ -230,7 +230,7 @@ def replay_design(data):
 
 
 def design_items(ctx, queries, filt=None, n=None):
-    ds = corpus.designs(ctx.tier, ctx.seed, n)
+    ds = corpus.designs(ctx.tier, ctx.seed, n) + corpus.formula_only_corpus()
     if filt:
         ds = [d for d in ds if filt(d)]
     return [(d, queries) for d in ds]
